@@ -7,12 +7,13 @@
     - the capped ear-clipping loop [fp_loop] never panics when entered with a non-empty loop that is open when it
       has a single vertex (sites 21, 22, 25, 93, 95, 96, 62, 63, 64, 10, 60 unreachable);
     - [poly_get_closed_loop] can only panic at site 41 (push(..).unwrap()) or, when the polygon has an EMPTY hole,
-      at site 42 ([% 0]); site 21 is unreachable; with no hole it returns Ok;
-    - hence [from_polygon P = Panic s -> s = 41] for every polygon whose holes are non-empty, and never for a
+      at site 42 ([% 0]) or, when its OUTLINE is empty, at site 21 (`ret_loop[min_ext_vertex_id]` in the attachment
+      search of fix bcb072e); the other occurrences of site 21 are unreachable; with no hole it returns Ok;
+    - hence [from_polygon P = Panic s -> s = 41] for every polygon whose outline and holes are non-empty, and never for a
       polygon without holes; [mesh_polygon] adds the sites of [refine] only, of which 67, 73 (neighbour look-ups),
       85 and 90 (sweep cursors) are unreachable because the initial mesh is well formed ([WF]);
     - every polygon built through the API (Loop3D push/close histories, Polygon3D::new, cut_hole histories) has
-      non-empty holes: a closed Loop3D is never empty. *)
+      a non-empty outline and non-empty holes: a closed Loop3D is never empty. *)
 From Coq Require Import ZArith Bool List Arith Lia.
 From G3 Require Import Model.Num Model.Base Model.Vec Model.Segment Model.Triangle Model.Loop Model.Polygon Model.Triangulation
   Proofs.C04_loop Proofs.C11_cut_hole Proofs.C12_merge
@@ -318,29 +319,86 @@ Section FpSites.
         intros H; inversion H; subst. left. eapply unwrap41_push; exact E2.
     - cbn [rbind]. apply IH.
   Qed.
-  Lemma merge_panic (P : Poly K) (s : N) : forall count (ret : Loop K) processed il iv,
-    count <= length (pinner P) ->
-    merge_holes false P count ret processed il iv = Panic s ->
-    s = 41%N \/ (s = 42%N /\ exists h, In h (pinner P) /\ llen h = 0).
+  (** the outline position [me0] returned by the scan: its initial value, or the index of a scanned outline vertex *)
+  Definition st_me (st : Sst (K:=K)) : nat := snd (fst (fst (fst st))).
+  Lemma siv_me (ev : V) (j k : nat) : forall (ivs : list V) (l : nat) (st : Sst),
+    st_me (scan_inner_vertices ev j k ivs l st) = st_me st \/ st_me (scan_inner_vertices ev j k ivs l st) = j.
   Proof.
-    induction count as [|c IH]; intros ret processed il iv Hc; cbn [merge_holes]; [discriminate|].
+    induction ivs as [|iv ivs IH]; intros l st; cbn [scan_inner_vertices]; [left; reflexivity|].
+    destruct st as [[[[md me] ml] il] iv_id]. destruct (nltb (psqdist ev iv) md).
+    - destruct (IH (S l) (psqdist ev iv, j, k, k, l)) as [E|E]; [right; rewrite E; reflexivity | right; exact E].
+    - apply IH.
+  Qed.
+  Lemma sil_me (ev : V) (j : nat) (processed : list nat) : forall (hs : list (Loop K)) (k : nat) (st : Sst),
+    st_me (scan_inner_loops ev j hs k processed st) = st_me st \/ st_me (scan_inner_loops ev j hs k processed st) = j.
+  Proof.
+    induction hs as [|h hs IH]; intros k st; cbn [scan_inner_loops]; [left; reflexivity|].
+    set (st' := if existsb (Nat.eqb k) processed then st else scan_inner_vertices ev j k (verts h) 0 st).
+    assert (G : st_me st' = st_me st \/ st_me st' = j) by (unfold st'; destruct (existsb _ _); [left; reflexivity | apply siv_me]).
+    destruct (IH (S k) st') as [E|E]; [rewrite E; exact G | right; exact E].
+  Qed.
+  Lemma se_me (hs : list (Loop K)) (processed : list nat) : forall (evs : list V) (j : nat) (st : Sst),
+    st_me (scan_ext evs j hs processed st) = st_me st \/ (j <= st_me (scan_ext evs j hs processed st) < j + length evs).
+  Proof.
+    induction evs as [|ev evs IH]; intros j st; cbn [scan_ext]; [left; reflexivity|]. cbn [length].
+    destruct (IH (S j) (scan_inner_loops ev j hs 0 processed st)) as [E|E]; [|right; lia].
+    rewrite E. destruct (sil_me ev j processed hs 0 st) as [G|G]; [left; exact G | right; lia].
+  Qed.
+  (** [attach_index] (fix bcb072e): the index `ret_loop[min_ext_vertex_id]` is out of bounds only if the outline is empty *)
+  Lemma attach_panic (P : Poly K) (vs : list V) (me0 : nat) (hole : Loop K) (iv' : nat) (s : N) :
+    attach_index false P vs me0 hole iv' = Panic s -> s = 21%N /\ length vs <= me0.
+  Proof.
+    unfold attach_index. destruct (_ && _); [|discriminate]. destruct (Nat.leb_spec (length vs) me0) as [C|C].
+    - intros H; inversion H; subst. split; [reflexivity | exact C].
+    - destruct (find_visit _ _ _ _ _ _ _); discriminate.
+  Qed.
+  (** a rebuilt outline is never empty: its last operation is a successful push *)
+  Lemma rebuild_nonempty (on : V) (hole : Loop K) (iv me : nat) :
+    forall evs i aux aux', rebuild false on evs i me hole iv aux = Ok aux' -> evs <> [] -> 1 <= llen aux'.
+  Proof.
+    induction evs as [|ev tl IH]; intros i aux aux' H Hne; [exfalso; apply Hne; reflexivity|]. cbn [rebuild] in H.
+    destruct (unwrap 41 (loop_push aux ev)) as [aux1| |] eqn:E1; cbn [rbind] in H; try discriminate. apply unwrap_ok in E1.
+    match type of H with rbind ?x _ = _ => destruct x as [aux2| |] eqn:E2; cbn [rbind] in H; try discriminate end.
+    assert (N2 : 1 <= llen aux2).
+    { destruct (Nat.eqb i me).
+      - destruct (Nat.eqb (llen hole) 0); [discriminate|].
+        destruct (push_hole_walk false aux1 hole _ iv (llen hole) 0 (S (llen hole))) as [a| |]; cbn [rbind] in E2; try discriminate.
+        apply unwrap_ok in E2. eapply push_nonempty; exact E2.
+      - inversion E2; subst. eapply push_nonempty; exact E1. }
+    destruct tl as [|ev' tl'].
+    - cbn [rebuild] in H. inversion H; subst. exact N2.
+    - eapply IH; [exact H | discriminate].
+  Qed.
+  Lemma merge_panic (P : Poly K) (s : N) : forall count (ret : Loop K) processed il iv,
+    count <= length (pinner P) -> (llen ret = 0 -> llen (pouter P) = 0) ->
+    merge_holes false P count ret processed il iv = Panic s ->
+    s = 41%N \/ (s = 42%N /\ exists h, In h (pinner P) /\ llen h = 0) \/ (s = 21%N /\ llen (pouter P) = 0).
+  Proof.
+    induction count as [|c IH]; intros ret processed il iv Hc Hret; cbn [merge_holes]; [discriminate|].
     pose proof (se_ml (pinner P) processed (verts ret) 0 (scan_start false, 0, 0, il, iv)) as Hml.
-    destruct (scan_ext (verts ret) 0 (pinner P) processed (scan_start false, 0, 0, il, iv)) as [[[[md me] ml] il'] iv'].
-    unfold st_ml in Hml. cbn [fst snd] in Hml.
+    pose proof (se_me (pinner P) processed (verts ret) 0 (scan_start false, 0, 0, il, iv)) as Hme.
+    destruct (scan_ext (verts ret) 0 (pinner P) processed (scan_start false, 0, 0, il, iv)) as [[[[md me0] ml] il'] iv'].
+    unfold st_ml in Hml. unfold st_me in Hme. cbn [fst snd] in Hml, Hme.
     assert (Hlt : ml < length (pinner P)) by (destruct Hml as [->|Hml]; lia).
     destruct (nth_error (pinner P) ml) as [hole|] eqn:Eh; [|apply nth_error_None in Eh; lia].
+    destruct (attach_index false P (verts ret) me0 hole iv') as [me| |s'] eqn:Ea; cbn [rbind]; [|discriminate|].
+    2:{ intros H; inversion H; subst. apply attach_panic in Ea. destruct Ea as [-> Ea]. right; right. split; [reflexivity|].
+        apply Hret. unfold llen. destruct Hme as [->|Hme]; lia. }
     destruct (rebuild false (lnormal (pouter P)) (verts ret) 0 me hole iv' loop_new) as [aux| |s'] eqn:Er; cbn [rbind]; [|discriminate|].
-    - apply IH. lia.
-    - intros H; inversion H; subst. apply rebuild_panic in Er. destruct Er as [Er|[Er E0]]; [left; exact Er | right].
+    - apply IH; [lia|]. intros E0. apply Hret. destruct (verts ret) as [|v vs] eqn:Ev; [unfold llen; rewrite Ev; reflexivity|].
+      exfalso. apply rebuild_nonempty in Er; [lia | discriminate].
+    - intros H; inversion H; subst. apply rebuild_panic in Er. destruct Er as [Er|[Er E0]]; [left; exact Er | right; left].
       split; [exact Er|]. exists hole. split; [eapply nth_error_In; exact Eh | exact E0].
   Qed.
   Theorem closed_loop_panic (P : Poly K) (s : N) : poly_get_closed_loop P = Panic s ->
-    s = 41%N \/ (s = 42%N /\ exists h, In h (pinner P) /\ llen h = 0).
-  Proof. apply merge_panic. lia. Qed.
-  (** every hole has at least one vertex (true of every polygon built through the API: see section 7) *)
+    s = 41%N \/ (s = 42%N /\ exists h, In h (pinner P) /\ llen h = 0) \/ (s = 21%N /\ llen (pouter P) = 0).
+  Proof. apply merge_panic; [lia|]. intros H. exact H. Qed.
+  (** every hole has at least one vertex, and so has the outline (true of every polygon built through the API: see section 7) *)
   Definition holes_nonempty (P : Poly K) : Prop := forall h, In h (pinner P) -> llen h <> 0.
-  Corollary closed_loop_panic_41 (P : Poly K) (s : N) : holes_nonempty P -> poly_get_closed_loop P = Panic s -> s = 41%N.
-  Proof. intros Hh H. apply closed_loop_panic in H. destruct H as [H|[_ (h & Hin & E0)]]; [exact H | exfalso; exact (Hh h Hin E0)]. Qed.
+  Corollary closed_loop_panic_41 (P : Poly K) (s : N) : llen (pouter P) <> 0 -> holes_nonempty P -> poly_get_closed_loop P = Panic s -> s = 41%N.
+  Proof.
+    intros Ho Hh H. apply closed_loop_panic in H. destruct H as [H|[[_ (h & Hin & E0)]|[_ E0]]]; [exact H | exfalso; exact (Hh h Hin E0) | exfalso; exact (Ho E0)].
+  Qed.
 
   (** ** 6. from_polygon and mesh_polygon *)
   (** a panic of [from_polygon] is a panic of [get_closed_loop]: [close] and the ear-clipping loop never panic *)
@@ -354,10 +412,10 @@ Section FpSites.
     intros H. exfalso. revert H. apply fp_loop_no_panic. split; [lia | intros C1; lia].
   Qed.
   Theorem from_polygon_panic_sites (P : Poly K) (s : N) : from_polygon P = Panic s ->
-    s = 41%N \/ (s = 42%N /\ exists h, In h (pinner P) /\ llen h = 0).
+    s = 41%N \/ (s = 42%N /\ exists h, In h (pinner P) /\ llen h = 0) \/ (s = 21%N /\ llen (pouter P) = 0).
   Proof. intros H. apply closed_loop_panic. apply from_polygon_panic_origin. exact H. Qed.
-  Theorem from_polygon_panic_41 (P : Poly K) (s : N) : holes_nonempty P -> from_polygon P = Panic s -> s = 41%N.
-  Proof. intros Hh H. eapply closed_loop_panic_41; [exact Hh | apply from_polygon_panic_origin; exact H]. Qed.
+  Theorem from_polygon_panic_41 (P : Poly K) (s : N) : llen (pouter P) <> 0 -> holes_nonempty P -> from_polygon P = Panic s -> s = 41%N.
+  Proof. intros Ho Hh H. eapply closed_loop_panic_41; [exact Ho | exact Hh | apply from_polygon_panic_origin; exact H]. Qed.
   Theorem from_polygon_no_holes_no_panic (P : Poly K) : pinner P = [] -> forall s, from_polygon P <> Panic s.
   Proof. intros Hp s H. apply from_polygon_panic_origin in H. rewrite (no_holes_unchanged P Hp) in H. discriminate. Qed.
 End FpSites.
@@ -557,16 +615,17 @@ Section Top.
     - intros H; inversion H; subst. left. reflexivity.
   Qed.
   Theorem mesh_polygon_panic_sites (fuel : nat) (P : Poly K) (a m : K) (s : N) : mesh_polygon fuel P a m = Panic s ->
-    s = 41%N \/ (s = 42%N /\ exists h, In h (pinner P) /\ llen h = 0) \/ in_sites sites_refine_wf s = true.
+    s = 41%N \/ (s = 42%N /\ exists h, In h (pinner P) /\ llen h = 0) \/ (s = 21%N /\ llen (pouter P) = 0) \/ in_sites sites_refine_wf s = true.
   Proof.
     intros H. apply mesh_polygon_panic_origin in H. destruct H as [H|(t & t' & _ & W & _ & H)].
-    - apply from_polygon_panic_sites in H. destruct H as [H|H]; [left; exact H | right; left; exact H].
-    - right; right. eapply refine_wf_sites; eassumption.
+    - apply from_polygon_panic_sites in H. destruct H as [H|[H|H]]; [left; exact H | right; left; exact H | right; right; left; exact H].
+    - right; right; right. eapply refine_wf_sites; eassumption.
   Qed.
-  Theorem mesh_polygon_panic_41 (fuel : nat) (P : Poly K) (a m : K) (s : N) : holes_nonempty P -> mesh_polygon fuel P a m = Panic s ->
+  Theorem mesh_polygon_panic_41 (fuel : nat) (P : Poly K) (a m : K) (s : N) : llen (pouter P) <> 0 -> holes_nonempty P -> mesh_polygon fuel P a m = Panic s ->
     s = 41%N \/ in_sites sites_refine_wf s = true.
   Proof.
-    intros Hh H. apply mesh_polygon_panic_sites in H. destruct H as [H|[[_ (h & Hin & E0)]|H]]; [left; exact H | exfalso; exact (Hh h Hin E0) | right; exact H].
+    intros Ho Hh H. apply mesh_polygon_panic_sites in H.
+    destruct H as [H|[[_ (h & Hin & E0)]|[[_ E0]|H]]]; [left; exact H | exfalso; exact (Hh h Hin E0) | exfalso; exact (Ho E0) | right; exact H].
   Qed.
   Theorem mesh_polygon_no_holes_sites (fuel : nat) (P : Poly K) (a m : K) (s : N) : pinner P = [] -> mesh_polygon fuel P a m = Panic s ->
     in_sites sites_refine_wf s = true.
@@ -647,14 +706,39 @@ Section Top.
     intros Hn Hhs. apply run_holes_nonempty; [eapply new_holes_nonempty; exact Hn|].
     intros h Hin. destruct (Hhs h Hin) as [ops ->]. apply run_closed_nonempty. apply new_closed_nonempty.
   Qed.
-  Theorem api_from_polygon_panic_41 (outer : Loop K) (P : Poly K) (hs : list (Loop K)) (s : N) :
-    poly_new outer = Ok P -> (forall h, In h hs -> exists ops, h = fst (loop_run loop_new ops)) ->
+  (** the outline is the loop given to Polygon3D::new (closed, hence non-empty when it comes from the Loop3D API); cut_hole keeps it *)
+  Lemma cut_hole_outer (P P' : Poly K) (h : Loop K) : poly_cut_hole P h = Ok P' -> pouter P' = pouter P.
+  Proof.
+    unfold poly_cut_hole. destruct (negb _); [discriminate|]. destruct (all_inside P (verts h)) as [ins| |]; cbn [rbind]; try discriminate.
+    destruct (negb ins); [discriminate|]. destruct (encloses_any h (pinner P)) as [enc| |]; cbn [rbind]; try discriminate.
+    destruct enc; [discriminate|]. destruct (loop_area h); cbn [rbind]; try discriminate. intros H; inversion H; reflexivity.
+  Qed.
+  Lemma run_outer (hs : list (Loop K)) : forall P : Poly K, pouter (fst (poly_run P hs)) = pouter P.
+  Proof.
+    induction hs as [|h hs IH]; intros P; cbn [poly_run]; [reflexivity|].
+    assert (H1 : pouter (fst (poly_step P h)) = pouter P).
+    { unfold poly_step. destruct (poly_cut_hole P h) as [P'| |] eqn:E; cbn [fst]; try reflexivity. eapply cut_hole_outer; exact E. }
+    destruct (poly_step P h) as [P' o]. cbn [fst] in H1. specialize (IH P'). destruct (poly_run P' hs) as [P'' os]. cbn [fst] in *. congruence.
+  Qed.
+  Lemma new_outer (outer : Loop K) (P : Poly K) : poly_new outer = Ok P -> pouter P = outer /\ lclosed outer = true.
+  Proof.
+    unfold poly_new. destruct (lclosed outer); cbn [negb]; [|discriminate]. destruct (loop_area outer); cbn [rbind]; try discriminate.
+    intros H; inversion H; subst. split; reflexivity.
+  Qed.
+  Theorem api_outer_nonempty (ops0 : list (lop K)) (P : Poly K) (hs : list (Loop K)) :
+    poly_new (fst (loop_run loop_new ops0)) = Ok P -> llen (pouter (fst (poly_run P hs))) <> 0.
+  Proof.
+    intros Hn. rewrite run_outer. apply new_outer in Hn. destruct Hn as [-> Hc].
+    exact (run_closed_nonempty ops0 loop_new new_closed_nonempty Hc).
+  Qed.
+  Theorem api_from_polygon_panic_41 (ops0 : list (lop K)) (P : Poly K) (hs : list (Loop K)) (s : N) :
+    poly_new (fst (loop_run loop_new ops0)) = Ok P -> (forall h, In h hs -> exists ops, h = fst (loop_run loop_new ops)) ->
     from_polygon (fst (poly_run P hs)) = Panic s -> s = 41%N.
-  Proof. intros Hn Hhs. apply from_polygon_panic_41. eapply api_holes_nonempty; eassumption. Qed.
-  Theorem api_mesh_polygon_panic (outer : Loop K) (P : Poly K) (hs : list (Loop K)) (fuel : nat) (a m : K) (s : N) :
-    poly_new outer = Ok P -> (forall h, In h hs -> exists ops, h = fst (loop_run loop_new ops)) ->
+  Proof. intros Hn Hhs. apply from_polygon_panic_41; [eapply api_outer_nonempty; exact Hn | eapply api_holes_nonempty; eassumption]. Qed.
+  Theorem api_mesh_polygon_panic (ops0 : list (lop K)) (P : Poly K) (hs : list (Loop K)) (fuel : nat) (a m : K) (s : N) :
+    poly_new (fst (loop_run loop_new ops0)) = Ok P -> (forall h, In h hs -> exists ops, h = fst (loop_run loop_new ops)) ->
     mesh_polygon fuel (fst (poly_run P hs)) a m = Panic s -> s = 41%N \/ in_sites sites_refine_wf s = true.
-  Proof. intros Hn Hhs. apply mesh_polygon_panic_41. eapply api_holes_nonempty; eassumption. Qed.
+  Proof. intros Hn Hhs. apply mesh_polygon_panic_41; [eapply api_outer_nonempty; exact Hn | eapply api_holes_nonempty; eassumption]. Qed.
 End Top.
 
 (** ** 8. witnesses on the executed instance (binary64), evaluated by vm_compute *)
@@ -694,12 +778,19 @@ Definition w42_poly : Poly float :=
 Lemma w42_panics : from_polygon w42_poly = Panic 42%N.
 Proof. vm_compute. reflexivity. Qed.
 
+(** W21 -- so is "the outline is not empty" since fix bcb072e: a RECORD with an empty outline and two (non-empty) holes
+    makes get_closed_loop index `ret_loop[min_ext_vertex_id]` out of bounds (the API cannot produce it either) *)
+Definition w21_poly : Poly float :=
+  mkPoly (mkLoop [] (mkV3 0 0 1) true 0 0)%float (pinner w5_poly ++ pinner w5_poly) 0%float (mkV3 0 0 1)%float.
+Lemma w21_panics : from_polygon w21_poly = Panic 21%N /\ llen (pouter w21_poly) = 0 /\ holes_nonempty w21_poly /\ length (pinner w21_poly) = 2.
+Proof. split; [vm_compute; reflexivity|]. split; [reflexivity|]. split; [apply holes_nonempty_b; vm_compute; reflexivity | vm_compute; reflexivity]. Qed.
+
 (** non-vacuity: a hole-free polygon and a polygon with a (non-empty) hole on which from_polygon returns Ok *)
 Lemma w_sites_nonvacuous :
   (pinner w4_poly = [] /\ exists M, from_polygon w4_poly = Ok M) /\
-  (holes_nonempty w5_poly /\ length (pinner w5_poly) = 1 /\ exists M, from_polygon w5_poly = Ok M).
+  (llen (pouter w5_poly) <> 0 /\ holes_nonempty w5_poly /\ length (pinner w5_poly) = 1 /\ exists M, from_polygon w5_poly = Ok M).
 Proof.
   split.
   - split; [vm_compute; reflexivity|]. destruct w_square_ok as (M & H & _). exists M. exact H.
-  - split; [apply holes_nonempty_b; vm_compute; reflexivity|]. destruct w5_from_polygon_ok as (M & H1 & _ & H3). split; [exact H3|]. exists M. exact H1.
+  - split; [vm_compute; discriminate|]. split; [apply holes_nonempty_b; vm_compute; reflexivity|]. destruct w5_from_polygon_ok as (M & H1 & _ & H3). split; [exact H3|]. exists M. exact H1.
 Qed.
